@@ -854,11 +854,31 @@ func (s *Shape) expansionRootAndForeignPredicate() (boundRoot, unboundRoot bool)
 		}
 	}
 	s.walkParts(func(m *MatchShape, i int, ps *PatternShape, bound map[string]bool) {
-		if m.Match == nil || (m.Match.Where == nil && !inherits[m]) || len(ps.Rels) == 0 || !IsVarLength(ps.Rels[0]) || len(ps.Nodes) < 2 || len(bound) == 0 {
+		if m.Match == nil || len(ps.Rels) == 0 || !IsVarLength(ps.Rels[0]) || len(ps.Nodes) < 2 || len(bound) == 0 {
 			return
 		}
 		left, right := varName(ps.Nodes[0].Variable), varName(ps.Nodes[1].Variable)
 		foreign := inherits[m]
+		// an inline property map that reads a bound variable (`(x {name: a.name})-[*]->()`) is such a predicate as well
+		for _, n := range ps.Nodes {
+			Visit(n.Properties, func(x any) bool {
+				if v, ok := x.(*cypher.Variable); ok && v != nil && bound[v.Symbol] {
+					foreign = true
+				}
+				return !foreign
+			})
+		}
+		for _, r := range ps.Rels {
+			Visit(r.Properties, func(x any) bool {
+				if v, ok := x.(*cypher.Variable); ok && v != nil && bound[v.Symbol] {
+					foreign = true
+				}
+				return !foreign
+			})
+		}
+		if m.Match.Where == nil && !foreign {
+			return
+		}
 		Visit(m.Match.Where, func(n any) bool {
 			if v, ok := n.(*cypher.Variable); ok && v != nil && v.Symbol != left && v.Symbol != right && bound[v.Symbol] {
 				foreign = true
